@@ -11,12 +11,15 @@ UsesCiphertext(fn) == fn \in {"LastAddRoundKey", "LastSboxes", "FeistelRLastRoun
 Kind(fn) == CASE fn \in {"FirstAddRoundKey", "LastAddRoundKey"} -> "ark" [] fn \in {"FirstSboxes", "LastSboxes"} -> "sbox"
               [] fn \in {"FeistelRFirstRounds", "FeistelRLastRounds"} -> "feistel" [] OTHER -> "delta"
 XorInt(a, b, n) == Val(XorB(BitsOf(a, n), BitsOf(b, n)))
-Hyp(fn, in8, g, w) == LET b == IP(Bits(in8))  L == SubSeq(b, 1, 32)  R == SubSeq(b, 33, 64)
-                          x == XorInt(Words(E(R), 6)[w], g, 6)
-                      IN CASE Kind(fn) = "ark" -> x
-                           [] Kind(fn) = "sbox" -> SBoxWord(w, x)
-                           [] Kind(fn) = "feistel" -> XorInt(Words(PInv(L), 4)[w], SBoxWord(w, x), 4)
-                           [] OTHER -> XorInt(Words(PInv(XorB(L, R)), 4)[w], SBoxWord(w, x), 4)
+\* what the four computations need from an input block, computed once per block
+Pre(in8) == LET b == IP(Bits(in8))  L == SubSeq(b, 1, 32)  R == SubSeq(b, 33, 64)
+            IN [er |-> Words(E(R), 6), pl |-> Words(PInv(L), 4), plr |-> Words(PInv(XorB(L, R)), 4)]
+HypPre(fn, pre, g, w) == LET x == XorInt(pre.er[w], g, 6)
+                         IN CASE Kind(fn) = "ark" -> x
+                              [] Kind(fn) = "sbox" -> SBoxWord(w, x)
+                              [] Kind(fn) = "feistel" -> XorInt(pre.pl[w], SBoxWord(w, x), 4)
+                              [] OTHER -> XorInt(pre.plr[w], SBoxWord(w, x), 4)
+Hyp(fn, in8, g, w) == HypPre(fn, Pre(in8), g, w)
 \* trail[16 (pass - 1) + round][view + 1] with 1-based round: the ten views of every round of an ENCRYPTION
 \* Target: First* = views 2, 3, 7, 8 of round 1; Last* = views 2, 3 of round 16, view 7 of round 14 (P^-1(R14)), view 8 of round 15 (P^-1(R15 xor R14))
 Target(fn, trail, w) == CASE fn = "FirstAddRoundKey" -> trail[1][3][w] [] fn = "FirstSboxes" -> trail[1][4][w]
